@@ -50,7 +50,11 @@ REQUIRED_FEATURES = [
 
 
 def task_fn(ctx, task):
+    if H.stopped():
+        ctx.cap('stopped early after the first violations (VERIF_STOP_EARLY)')
+        return
     H.c05_run(ctx, task)
+    H.stop_if_violated(ctx)
 
 
 def run_engine(ctx, fn):
@@ -63,6 +67,7 @@ def run_engine(ctx, fn):
     # interleave so that every chunk mixes cheap and expensive programs
     n = core.NCPU * 4
     order = [t for i in range(n) for t in tasks[i::n]]
+    H.arm_early_stop()
     ctx.pmap(fn, order, chunk=max(1, len(order) // (core.NCPU * 8)))
     return tasks, bounds
 
@@ -75,7 +80,7 @@ def guards(ctx, tasks):
     for home in H.HOMES:
         ctx.require(ctx.nd('home:' + home) >= 300, 'too few programs in the %s home (%d)' % (home, ctx.nd('home:' + home)))
     ctx.require(ctx.n('entry:action') > 0 and ctx.n('entry:model') > 0, 'one of the two prebuild entry points was never used')
-    ctx.require(ctx.nd('states') == len(tasks), 'not every task was run (%d of %d)' % (ctx.nd('states'), len(tasks)))
+    ctx.require(ctx.nd('states') == len(tasks) or ctx.caps_hit, 'not every task was run (%d of %d)' % (ctx.nd('states'), len(tasks)))
     for fam in ('statements', 'expressions', 'sequences', 'nesting'):
         ctx.require(ctx.n('family:' + fam) >= 500, 'family %s too small (%d)' % (fam, ctx.n('family:' + fam)))
 
